@@ -122,6 +122,39 @@ def python_job(prog: str, seed: int = 0) -> JobOut:
         sides.append(Side(f"{prog}/generated-source-runs-with-real-numpy", False, f"{type(e).__name__}: {e}"))
         return JobOut(sides=sides)
 
+    # one program object called repeatedly: every call takes exactly the caller's inputs (nothing is remembered)
+    try:
+        import numpy
+        old = sys.modules.get(MODNAME)
+        sys.modules[MODNAME] = numpy
+        try:
+            progobj = bp.copy()
+            with np.errstate(all="ignore"):
+                progobj(**{n: data[n] for n in used_ph})
+                data2 = {n: (d * 0.5 + 1.25 if isinstance(d, np.ndarray) and d.dtype.kind == "f" and n in ph_names else d)
+                         for n, d in data.items()}
+                got2 = progobj(**{n: data2[n] for n in used_ph})
+                want2 = C.build_numpy(P, data2)
+            bad2 = [k for k in want2 if not num_close(got2[k], want2[k], scale=max(1.0, float(np.max(np.abs(want2[k])))
+                                                     if np.asarray(want2[k]).size and np.asarray(want2[k]).dtype.kind in "fc" else 1.0))]
+            stale = None
+            if used_ph:
+                missing = sorted(used_ph)[0]
+                try:
+                    progobj(**{n: data2[n] for n in used_ph if n != missing})
+                    stale = f"a call without the input {missing!r} was accepted"
+                except Exception:  # noqa: BLE001
+                    pass
+            sides.append(Side(f"{prog}/repeated-calls-take-exactly-the-callers-inputs", not bad2 and stale is None,
+                              {"second call differs from NumPy on": bad2, "missing input": stale}))
+        finally:
+            if old is None:
+                sys.modules.pop(MODNAME, None)
+            else:
+                sys.modules[MODNAME] = old
+    except Exception as e:  # noqa: BLE001
+        sides.append(Side(f"{prog}/repeated-calls-take-exactly-the-callers-inputs", False, f"{type(e).__name__}: {e}"))
+
     kinds = C.kinds_of(P)
 
     def mk_pair():
